@@ -1,5 +1,5 @@
 (* C15 — Filter changes only ids; CheckIds only rejects foreign ids. *)
-From Connectome Require Import Values Attrs VM Edges EdgesGen NameSet Relational RelFacts HashSound.
+From Connectome Require Import Values Attrs VM Edges EdgesGen NameSet RelBase FilterGen SortFacts FilterFacts HashSound.
 Local Open Scope list_scope.
 
 Theorem C15_filter_ids : forall p ids i, In i (filter_ids p ids) <-> In i ids /\ p i = true.
